@@ -105,19 +105,24 @@ def check_search(s, t, soup):
         exp2 = sum(1 for _, n, _ in occ if n in two)
         if len(soup.find_all(two)) != exp2:
             out.append(('find_all-list', 'find_all(%r) in %r returns %d, expected %d' % (two, s, len(soup.find_all(two)), exp2)))
-    # full-expression queries: the text of a command, the opening of an environment
-    for n in list(all_nodes(soup))[1:6]:
-        if isinstance(n.expr, TexCmd) and n.expr.args:
+    # full-expression queries: the text of a command, the opening of an environment.  A query matches the nodes whose
+    # text equals it and the named environments whose opening (with or without arguments) equals it
+    nodes = list(all_nodes(soup))[1:]
+
+    def expected(q):
+        return sum(1 for m in nodes if isinstance(m.expr, (TexCmd, TexEnv)) and (
+            str(m) == q or isinstance(m.expr, TexNamedEnv) and q in (m.expr.begin + str(m.expr.args), m.expr.begin)))
+    for n in nodes[:5]:
+        if isinstance(n.expr, TexCmd) and n.expr.args and not str(n).startswith('\\end{'):
+            # (a query equal to a closing \\end{name} also selects the environments it closes: TexEnv.__match__ accepts
+            # the closing delimiter, which the property's sentence on text/opening queries does not cover; not posed)
             q = str(n)
-            exp = sum(1 for m in list(all_nodes(soup))[1:] if isinstance(m.expr, (TexCmd, TexEnv)) and str(m) == q)
-            if soup.count(q) != exp:
-                out.append(('full-text-query', 'count(%r) in %r is %d, expected %d' % (q, s, soup.count(q), exp)))
+            if soup.count(q) != expected(q):
+                out.append(('full-text-query', 'count(%r) in %r is %d, expected %d' % (q, s, soup.count(q), expected(q))))
         if isinstance(n.expr, TexNamedEnv):
             q = n.expr.begin + str(n.expr.args)
-            exp = sum(1 for m in list(all_nodes(soup))[1:] if isinstance(m.expr, TexNamedEnv) and
-                      q in (m.expr.begin + str(m.expr.args), m.expr.begin))
-            if soup.count(q) != exp:
-                out.append(('opening-query', 'count(%r) in %r is %d, expected %d' % (q, s, soup.count(q), exp)))
+            if soup.count(q) != expected(q):
+                out.append(('opening-query', 'count(%r) in %r is %d, expected %d' % (q, s, soup.count(q), expected(q))))
     return out
 
 
